@@ -17,7 +17,7 @@ Section System.
 
   Definition sys_machine :=
     pair_machine
-      (extlag_machine O (list_machine (restraint_machine O)) sum_forces)
+      (extlag_machine O (list_machine (restraint_machine O)) sum_forces (@bin_value T))
       (pair_machine (list_machine (restraint_machine O))
          (pair_machine (list_machine (histogram_machine O)) (list_machine (abmd_machine O)))).
 
@@ -52,7 +52,7 @@ Section System.
   Theorem sys_resumes_go_on : resumes_like_go_on sys_machine sys_ok sys_out_eq0 sys_out_eq sys_saved_eq.
   Proof.
     pose proof (list_resumable _ _ _ _ _ _ _ (restraint_resumable O)) as HL.
-    pose proof (extlag_resumable O _ sum_forces _ _ _ _ _ _ sum_forces_eq0 sum_forces_eq HL) as HX.
+    pose proof (extlag_resumable O _ sum_forces (@bin_value T) _ _ _ _ _ _ sum_forces_eq0 sum_forces_eq HL) as HX.
     pose proof (list_resumable _ _ _ _ _ _ _ (histogram_resumable O)) as HH.
     pose proof (list_resumable _ _ _ _ _ _ _ abmd_resumable) as HA.
     pose proof (pair_resumable _ _ _ _ _ _ _ _ _ _ _ _ _ _ HH HA) as H1.
